@@ -1,5 +1,9 @@
 """C17 - blacklist-aware genome tiling is an exact partition with contained fetch windows.
 
+EXTENSION (coq/Model/C17x.v, C17bed.v; section "extension" below, work_g): blacklisted_binning_contigs - the blacklist dictionary
+read from a BED / BED.gz file, the loop over the contig list with the optional whitelist, with / without fragment size - the text
+level of the BED file, and bp_chunked applied to the rows; K only.
+
 T + K: the expressions the proofs hinge on are regenerated from the source (coq/Gen/GenTiling.v, see regen_tiling below) and
 used by the model; the control flow of coq/Model/C17.v is a hand transcription (skeleton-pinned) of fill_range, trim_rangelist,
 range_contains_overlap, _merge_overlapping_ranges, merge_overlapping_ranges, blacklisted_binning
@@ -494,6 +498,23 @@ def spec_bp(c, out):
 SPEC = {0: spec_fill, 1: spec_trim, 4: spec_merge, 5: spec_bb, 6: spec_bp}
 
 
+def in_domain(fn, c):
+    """the hypotheses of the statements (the same tests the spec_* functions start with)"""
+    try:
+        if fn == 0:
+            return c[3] > 0 and c[1] <= c[2]
+        if fn == 1:
+            l, sc, ec = c[1], c[2], c[3]
+            return sc <= ec and all(s <= e for s, e in l) and all(l[i][1] <= l[i + 1][0] for i in range(len(l) - 1))
+        if fn in (2, 3, 4):
+            return all(s <= e for s, e in c[1])
+        if fn == 5:
+            return pre_bb(c)
+    except Exception:
+        return False
+    return True
+
+
 def canon_helper(fn, out):
     """the helper functions are constrained through the bases they describe (theorems C17_trim_*, C17_merge_same_bases):
     zero-length ranges in the output of trim_rangelist, and whether touching ranges are joined by the merge functions,
@@ -772,6 +793,520 @@ def history_cases(tier, rng):
     return out
 
 
+
+# ============================================================================ extension: contig level, BED text, bp on rows
+# (Model.C17x / Model.C17bed: fn 7 blacklisted_binning_contigs on records, 8 the records of a BED text, 9 bp_chunked on the
+#  rows, 10 blacklisted_binning_contigs from the BED text, 11 print_bed)
+import re
+NAME_POOL = ['chr1', 'chr10', 'chr1_random', 'chr2', 'chrX', 'chrM', 'chrUn_1', '1', 'MT', 'HLA-A*01:01']
+PY_SPACE = [9, 10, 11, 12, 13, 28, 29, 30, 31, 32, 133, 160, 5760] + list(range(8192, 8203)) + [8232, 8233, 8239, 8287, 12288]
+INT_RE = re.compile(r'[+-]?[0-9]+(_[0-9]+)*\Z')
+
+
+def gmodel_input(t, fn=7):
+    """model input of a contig-level case (see coq/Model/C17x.v run_fnx)"""
+    wl = [] if t['whitelist'] is None else [list(t['whitelist'])]
+    fr = [] if t['fragment_size'] is None else [t['fragment_size']]
+    if fn == 10:
+        return [10, [list(x) for x in t['contigs']], wl, [] if t.get('text') is None else [t['text']], t['bin_size'], fr]
+    bed = [] if t['bed'] is None else [[list(r) for r in t['bed']]]
+    c = [fn, [list(x) for x in t['contigs']], wl, bed, t['bin_size'], fr]
+    if fn == 9:
+        c.append(t['bp'])
+    return c
+
+
+def canon_rows(rows):
+    """rows of the implementation in the model's encoding (names as code lists); a refusal is [1]"""
+    if isinstance(rows, list) and rows[:1] == [1]:
+        return [1]
+    if isinstance(rows, list) and rows[:1] == ['error']:
+        return rows
+    return [0, [[fw.to_val(r[0])] + list(r[1:]) for r in rows]]
+
+
+def canon_model_rows(o):
+    return [1] if o[0] == 1 else [0, o[1]]
+
+
+def gpre_py(t):
+    """hypothesis of C17_contigs_tiling (cross-checked against the Coq gpre, mode 1)"""
+    sel = [(n, ln) for n, ln in t['contigs'] if t['whitelist'] is None or n in t['whitelist']]
+    names = set(n for n, _ in sel)
+    return t['bin_size'] > 0 and all(ln >= 0 for _, ln in sel) and \
+        all(s <= e for c, s, e in (t['bed'] or []) if c in names) and \
+        (t['fragment_size'] is None or t['fragment_size'] >= 0)
+
+
+def nodup_py(t):
+    sel = [n for n, ln in t['contigs'] if t['whitelist'] is None or n in t['whitelist']]
+    return len(set(sel)) == len(sel)
+
+
+def rand_bed(rng, contigs, extra_names):
+    bed = []
+    for _ in range(rng.choice([0, 1, 1, 2, 3, 4, 6, 10])):
+        if contigs and rng.random() < 0.75:
+            n, ln = rng.choice(contigs)
+        else:
+            n, ln = rng.choice(extra_names), rng.choice([0, 50, 10 ** 6])
+        kind = rng.randint(0, 9)
+        q = max(1, ln // 3)
+        if kind == 0:
+            r = [0, rng.randint(0, q)]                                   # touches the contig start
+        elif kind == 1:
+            r = [ln - rng.randint(0, min(ln, q)), ln]                    # touches the contig end
+        elif kind == 2:
+            r = [max(0, ln - rng.randint(0, q)), ln + rng.randint(1, 9)]  # crosses the contig end
+        elif kind == 3:
+            r = [0, ln + rng.choice([0, 1, 5])]                          # covers the contig
+        elif kind == 4:
+            x = rng.randint(0, ln + 2)
+            r = [x, x]                                                   # empty
+        elif kind == 5:
+            r = [ln + rng.randint(0, 3), ln + rng.randint(3, 40)]        # beyond the end
+        elif kind == 6 and bed:
+            c0, s0, e0 = rng.choice(bed)
+            n = c0 if rng.random() < 0.7 else n                          # same interval on the same / another contig
+            r = [s0, e0] if rng.random() < 0.4 else [e0, e0 + rng.randint(0, q)] if rng.random() < 0.5 else \
+                [rng.randint(min(s0, e0), max(s0, e0)), max(s0, e0) + rng.randint(0, q)]
+        else:
+            s0 = rng.randint(0, max(0, ln))
+            r = [s0, s0 + rng.choice([1, rng.randint(0, q), rng.randint(0, ln + 5)])]
+        bed.append([n] + r)
+    return bed
+
+
+def gcases_random(tier, rng):
+    out = []
+    for k in range(500 if tier == 'quick' else 4000):
+        names = rng.sample(NAME_POOL, rng.randint(1, 5))
+        big = rng.random() < 0.12
+        contigs = [[n, rng.choice([2 ** 31 - 1, 10 ** 6, rng.randint(10 ** 5, 10 ** 8)]) if big else
+                    rng.choice([0, 1, 2, 7, 30, 100, rng.randint(1, 300)])] for n in names]
+        how = rng.choice(['list', 'list', 'items', 'bam'])
+        if how == 'bam':
+            contigs = [[n, max(1, ln)] for n, ln in contigs]
+        elif rng.random() < 0.04:
+            contigs.append(list(rng.choice(contigs)))                    # a repeated contig name (list only)
+            contigs[-1][1] = rng.choice([contigs[-1][1], 5])
+            how = 'list'
+        others = [n for n in NAME_POOL if n not in names] + ['chrOther']
+        bed = None if rng.random() < 0.12 else rand_bed(rng, contigs, others)
+        mx = max(ln for _, ln in contigs)
+        bs = rng.choice([max(1, mx // rng.randint(2, 40)), mx + 1]) if big else \
+            rng.choice([1, 3, 10, 25, 1000, max(1, mx), mx + 1, rng.randint(1, 60)])
+        fr = rng.choice([None, None, 0, 2, 15, bs, bs + 1])
+        w = rng.random()
+        wl = None if w < 0.4 else [] if w < 0.45 else rng.sample(names, rng.randint(1, len(names))) if w < 0.75 else \
+            rng.sample(names + others[:3], rng.randint(1, 3))
+        t = {'contigs': contigs, 'contigs_as': how, 'bed': bed, 'gz': rng.random() < 0.3, 'bin_size': bs, 'fragment_size': fr,
+             'whitelist': wl, 'whitelist_as': rng.choice(['list', 'set', 'tuple']),
+             'bp': rng.choice([None, None, 1, bs, 3 * bs + 1, 0, -1, 1000, rng.randint(1, 4 * bs)])}
+        if rng.random() < 0.06:                                          # outside the precondition
+            what = rng.randint(0, 2)
+            if what == 0:
+                # (not -1 on a 2^31 contig: the model's fill_range fuel is |end - start| / |step| as a unary nat)
+                t['bin_size'] = rng.choice([0, -bs] if big else [0, -1, -bs])
+            elif what == 1 and how != 'bam':
+                t['contigs'][0][1] = -rng.randint(1, 9)
+            elif bed:
+                i = rng.randrange(len(bed))
+                bed[i] = [bed[i][0], bed[i][2] + rng.randint(1, 5), bed[i][1]]
+        out.append(t)
+    return out
+
+
+def gcases_scope(tier):
+    """exhaustive small scope: two contigs a, b; every ordered list of <= 2 BED records over the contigs a, b, c with end
+    points 0..3 (start <= end); whitelists None / [a] / [b, c]; with and without fragment size"""
+    ivs = intervals(0, 3)
+    recs = [[n, s, e] for n in 'abc' for s, e in ivs]
+    beds = [[]] + [[r] for r in recs] + [[r1, r2] for r1 in recs for r2 in recs]
+    if tier == 'quick':
+        shapes = [([['a', 3], ['b', 2]], 2), ([['a', 0], ['b', 3]], 2)]
+        wls = [None, ['a'], ['b', 'c']]
+        frs = [None, 1]
+    else:
+        shapes = [([['a', la], ['b', lb]], bs) for la in (0, 1, 3) for lb in (2, 3) for bs in (1, 2, 3)]
+        wls = [None, ['a'], ['b', 'c'], [], ['c']]
+        frs = [None, 0, 1]
+    out = []
+    for contigs, bs in shapes:
+        for bed in beds:
+            for wl in wls:
+                for fr in frs:
+                    out.append({'contigs': contigs, 'bed': bed, 'gz': False, 'bin_size': bs, 'fragment_size': fr, 'whitelist': wl,
+                                'bp': None})
+    return out, {'contigs': [s[0] for s in shapes], 'bin_sizes': sorted(set(s[1] for s in shapes)),
+                 'bed': 'every ordered list of <= 2 records (contig in a, b, c; 0 <= start <= end <= 3): %d lists' % len(beds),
+                 'whitelists': [repr(w) for w in wls], 'fragment_sizes': [repr(f) for f in frs], 'cases': len(out)}
+
+
+def int_literal_ok(tok):
+    return bool(INT_RE.match(tok)) and sum(ch.isdigit() for ch in tok) <= 4300
+
+
+def text_wellformed(text):
+    """every line of the text has >= 3 whitespace separated columns and columns 2, 3 are ASCII int() literals (decided
+    here independently of the model); lines as text-mode file iteration gives them"""
+    lines = text.replace('\r\n', '\n').replace('\r', '\n').split('\n')
+    if lines and lines[-1] == '':
+        lines.pop()
+    for l in lines:
+        tk = l.split()
+        if len(tk) < 3 or not int_literal_ok(tk[1]) or not int_literal_ok(tk[2]):
+            return False
+    return True
+
+
+def rand_number(rng, good, nonascii=False, value=None):
+    if good:
+        v = value if value is not None else \
+            rng.choice([0, 1, 7, 10, 99, 100, rng.randint(0, 300), rng.randint(0, 10 ** 9), 2 ** 31 - 1, 2 ** 63, 10 ** 25])
+        s = str(v)
+        k = rng.randint(0, 9)
+        if k == 0:
+            s = '+' + s
+        elif k == 1 and (value is None or v == 0):
+            s = '-' + s
+        elif k == 2:
+            s = '00' + s
+        elif k == 3 and len(s) > 1:
+            i = rng.randint(1, len(s) - 1)
+            s = s[:i] + '_' + s[i:]
+        elif k == 4 and value is None:
+            s = '-0'
+        return s
+    return rng.choice(['', 'x', '1x', '1.0', '1e3', '0x10', '_1', '1_', '1__0', '+', '-', '+-1', '--1', '1-', 'NA', '.', '1,000',
+                       '1\x00'] + (['\u0663', '\uff11\uff12'] if nonascii else []))
+
+
+def rand_text(rng, nonascii, path=False):
+    """a BED text: mostly well-formed lines with varied separators / line ends / extra columns; sometimes a malformed line.
+    path: the text is fed to blacklisted_binning_contigs, so the coordinates are small and start <= end (an ill-formed record
+    with a huge coordinate makes blacklisted_binning enumerate an astronomically long range - outside every hypothesis)"""
+    seps = ['\t', '\t', ' ', '  ', '\t ', '\x0b', '\x0c', '\x1c', '\x1f'] + \
+        (['\x85', '\xa0', '\u2003', '\u3000', '\u2028'] if nonascii else [])
+    eols = ['\n', '\n', '\n', '\r\n', '\r']
+    lines = []
+    bad = rng.random() < 0.3
+    n = rng.choice([0, 1, 2, 3, 5])
+    for i in range(n):
+        name = rng.choice(NAME_POOL + ['a', 'chr\xe9' if nonascii else 'chrE', '#chr1', 'track', '0'])
+        if path:
+            s0 = rng.randint(0, 120)
+            cols = [name, rand_number(rng, True, value=s0), rand_number(rng, True, value=s0 + rng.choice([0, 1, rng.randint(0, 200)]))]
+        else:
+            cols = [name, rand_number(rng, True), rand_number(rng, True)]
+        if bad and rng.random() < 0.5:
+            k = rng.randint(0, 5)
+            if k == 0:
+                cols = cols[:rng.randint(0, 2)]                          # too few columns / blank line
+            elif k == 1:
+                cols[rng.choice([1, 2])] = rand_number(rng, False, nonascii)
+            elif k == 2:
+                cols = ['#', 'comment']
+            elif k == 3:
+                cols = ['track', 'name=blacklist', 'description="x y"']
+            elif k == 4:
+                cols = ['browser', 'position', 'chr1:1-100']
+            else:
+                cols[2 if path else rng.choice([1, 2])] = rng.choice(['9' * 40, '0' * 50 + '7', '1_0' * 20]) if rng.random() < 0.85 else \
+                    '1' * rng.choice([4300, 4301]) if rng.random() < 0.5 else '0' * 4295 + '123456'   # int()'s digit limit (few: slow in the model)
+        if rng.random() < 0.3:
+            cols += rng.choice([['x'], ['name', '0', '+'], ['1', '2', '3', '4 5'], ['.']])
+        line = rng.choice(['', '', '', ' ', '\t']) + ''.join(c + rng.choice(seps) for c in cols[:-1]) + (cols[-1] if cols else '') \
+            + rng.choice(['', '', ' ', '\t'])
+        lines.append(line + (rng.choice(eols) if i < n - 1 or rng.random() < 0.8 else ''))
+    if bad and rng.random() < 0.2:
+        lines.insert(rng.randint(0, len(lines)), rng.choice(['\n', '\r\n', ' \n', '\r']))   # blank line
+    return ''.join(lines)
+
+
+def texts_scope(tier):
+    """every text of <= n characters over a small alphabet (letters, digits, sign, underscore, blank, tab, both line ends)"""
+    alpha, n = ('a1 \n\r-_', 4) if tier == 'quick' else ('a1 \t\n\r-_+', 5)
+    out = ['']
+    for k in range(1, n + 1):
+        out += [''.join(p) for p in itertools.product(alpha, repeat=k)]
+    # the same with a well-formed first line in front (so that later lines are reached)
+    out += ['a 1 2\n' + x for x in out if len(x) <= n - 1]
+    # int()'s limit of 4300 digits (leading zeros count, underscores and the sign do not)
+    fixed = ['a\t1\t' + '1' * 4300 + '\n', 'a\t1\t' + '1' * 4301 + '\n', 'a\t' + '0' * 4295 + '123456\t7\n',
+             'a\t-' + '9' * 4300 + '\t+' + '1_' * 4299 + '1\n', 'a\t-' + '9' * 4301 + '\t1\n']
+    if tier == 'quick':
+        fixed = fixed[:3]
+    out += fixed
+    return out, {'alphabet': alpha, 'max_length': n, 'texts': len(out),
+                 'plus': '%d fixed texts at the 4300-digit limit of int()' % len(fixed)}
+
+
+def unbig(v):
+    """[sign, limbs base 2^30 least significant first] -> int (see Model.C17x.ofBig)"""
+    return v[0] * sum(l << (30 * i) for i, l in enumerate(v[1]))
+
+
+def canon_parse_model(o):
+    """model output of fn 8 -> {contig: ...} canonical form (see canon_parse)"""
+    if o[0] == 1:
+        return [1]
+    d = {}
+    for name, s, e in o[1]:
+        d.setdefault(fw.as_str(name), []).append((unbig(s), unbig(e)))
+    return canon_parse(d)
+
+
+def canon_parse_impl(o):
+    if isinstance(o, list) and (o[:1] == [1] or o[:1] == ['error'] or o == ['missing']):
+        return o
+    return canon_parse({c: [(int(s), int(e)) for s, e in l] for c, l in o})
+
+
+def canon_parse(d):
+    """what blacklisted_binning_contigs can observe of the parsed file: per contig the blacklisted bases (maximal intervals of
+    the records with start < end); ill-formed records (start > end, outside every hypothesis) are kept as a sorted list"""
+    out = []
+    for c in sorted(d):
+        u = [tuple(x) for x in union(d[c])]
+        ill = sorted((s, e) for s, e in d[c] if s > e)
+        if u or ill:
+            out.append([c, u, ill])
+    return [0, out]
+
+
+def perturb_rows(rng, rows):
+    rows = [list(r) for r in rows]
+    if not rows:
+        return [[[97], 0, 1]]
+    i = rng.randrange(len(rows))
+    k = rng.randint(0, 4)
+    if k == 0:
+        rows[i][rng.randrange(1, len(rows[i]))] += rng.choice([-1, 1])
+    elif k == 1:
+        del rows[i]
+    elif k == 2:
+        rows.insert(i, list(rows[i]))
+    elif k == 3:
+        rows[i][0] = rows[i][0] + [95]
+    else:
+        rows.append(rows.pop(0))
+    return rows
+
+
+def work_g(args):
+    """the contig-level / BED-text chunk (own process): implementation, model, specification; returns a summary"""
+    tier, seed, use_model, corpus_g, skip_scopes = args
+    rng = random.Random(seed)
+    S = {'dis': [], 'ndis': 0, 'viol': {}, 'nviol': 0, 'hist': Counter(), 'keep': [], 'notes': [], 'n': 0, 'spec_evals': 0,
+         'nontrivial': 0, 'errors': 0}
+    scope, scope_desc = gcases_scope(tier)
+    if skip_scopes:
+        scope, scope_desc = [], 'exhaustive scopes were run in the first pass'
+    gc = list(corpus_g) + gcases_random(tier, rng) + scope
+    # the whole path from a BED text (well-formed or not), and the records of a text
+    tscope, tscope_desc = texts_scope(tier)
+    if skip_scopes:
+        tscope, tscope_desc = [], 'exhaustive scopes were run in the first pass'
+    nonascii = True      # non-ASCII cases are dropped below when the implementation's text encoding is not UTF-8
+    texts = [{'text': x, 'gz': False} for x in tscope]
+    for i in range(800 if tier == 'quick' else 6000):
+        texts.append({'text': rand_text(rng, nonascii), 'gz': rng.random() < 0.4})
+    # round trip (theorem C17_bed_round_trip): records printed with the format string of the harness
+    rt = []
+    for i in range(150 if tier == 'quick' else 2000):
+        recs = []
+        for _ in range(rng.randint(0, 6)):
+            s0 = rng.choice([0, 1, rng.randint(0, 10 ** 6), rng.randint(-50, 50), 2 ** 62, -10 ** 30])
+            recs.append([rng.choice(NAME_POOL), s0, rng.choice([s0, s0 + 1, s0 + rng.randint(0, 10 ** 4), rng.randint(-5, 500)])])
+        rt.append(recs)
+    for recs in rt:
+        texts.append({'text': ''.join('%s\t%d\t%d\n' % tuple(r) for r in recs), 'gz': rng.random() < 0.3, 'records': recs})
+    tcases = []
+    for i in range(120 if tier == 'quick' else 800):
+        names = rng.sample(NAME_POOL, rng.randint(1, 3))
+        contigs = [[n, rng.choice([1, 7, 30, 100, rng.randint(1, 300)])] for n in names]
+        tcases.append({'contigs': contigs, 'bed': None, 'text': rand_text(rng, nonascii, path=True), 'gz': rng.random() < 0.4,
+                       'bin_size': rng.choice([1, 3, 10, 25]), 'fragment_size': rng.choice([None, 2]), 'whitelist': None, 'bp': None})
+    # outside-precondition cases last: whatever they leave behind in the process cannot reach the other cases
+    gc.sort(key=lambda t: not gpre_py(t))
+    try:
+        res = fw.run_impl('impl_c17.py', {'gcases': gc + tcases, 'texts': texts, 'budget': 90 if tier == 'quick' else 900},
+                          timeout=600 if tier == 'quick' else 3000)
+    except Exception as e:
+        S['fatal'] = 'the implementation could not be run on the contig-level / BED-text stream: %r' % (e,)
+        S['scope'], S['counts'] = {}, {'contig_level_cases': len(gc)}
+        return S
+    gi, ti = res['gcases'], res['texts']
+    S['n'] = len(gc) + len(tcases) + len(texts)
+    nskip = sum(1 for o in gi if o['rows'] == ['skipped']) + sum(1 for o in ti if o == ['skipped'])
+    if nskip:
+        S['fatal'] = 'the implementation used up the time budget of the contig-level / BED-text stream (a normal run takes ' \
+                     'seconds): %d of %d cases were not evaluated' % (nskip, S['n'])
+    skip_na = res.get('text_encoding') != 'utf8'
+
+    def non_ascii(x):
+        # int() also reads non-ASCII decimal digits, Model.C17bed.parse_int does not (stated in the trusted base)
+        if any(ord(ch) > 127 and ch.isdigit() for ch in x):
+            S['hist']['text_with_non_ascii_digit_not_compared'] += 1
+            return True
+        return skip_na and any(ord(ch) > 127 for ch in x)
+
+    def disagree(fn, inp, m, o):
+        S['ndis'] += 1
+        if len(S['dis']) < 40:
+            S['dis'].append({'fn': fn, 'input': inp, 'model': m, 'impl': o})
+
+    def violation(key, what, inp, o):
+        S['nviol'] += 1
+        sz = len(json.dumps(inp))
+        if key not in S['viol'] or sz < S['viol'][key][0]:
+            S['viol'][key] = (sz, {'key': key, 'what': what, 'input': inp, 'impl': o,
+                                   'note': 'the cases of this stream are run one after the other in ONE process (tools/impl_c17.py '
+                                           'run_gcase / run_text); if the input alone does not reproduce the failure, state left behind '
+                                           'by earlier calls is involved'})
+
+    # ---- contig level
+    if use_model:
+        m7 = fw.run_model('C17', 0, [gmodel_input(t) for t in gc])
+        bpc = [i for i, t in enumerate(gc) if t.get('bp') is not None]
+        m9 = dict(zip(bpc, fw.run_model('C17', 0, [gmodel_input(gc[i], 9) for i in bpc]))) if bpc else {}
+        pre = fw.run_model('C17', 1, [gmodel_input(t) for t in gc])
+        nd = fw.run_model('C17', 3, [gmodel_input(t) for t in gc])
+    P = Prop.__new__(Prop)
+    for i, t in enumerate(gc):
+        o = gi[i]
+        if o['rows'] == ['skipped']:
+            continue
+        rows = canon_rows(o['rows'])
+        if rows[:1] == ['error']:
+            S['errors'] += 1
+        ok_pre = gpre_py(t)
+        S['hist']['precondition_holds'] += ok_pre
+        S['hist']['contigs_as_%s' % t.get('contigs_as', 'list')] += 1
+        S['hist']['whitelist_%s' % ('None' if t['whitelist'] is None else 'given')] += 1
+        S['hist']['bed_%s' % ('None' if t['bed'] is None else 'gz' if t.get('gz') else 'plain')] += 1
+        sel = set(n for n, ln in t['contigs'] if t['whitelist'] is None or n in t['whitelist'])
+        other = [r for r in (t['bed'] or []) if r[0] not in sel]
+        rel = [r for r in (t['bed'] or []) if r[0] in sel]
+        if other:
+            S['hist']['has_record_on_unselected_contig'] += 1
+        if t['whitelist'] is not None and any(n not in t['whitelist'] for n, _ in t['contigs']):
+            S['hist']['whitelist_excludes_a_contig'] += 1
+        if not nodup_py(t):
+            S['hist']['repeated_contig_name'] += 1
+        if t.get('bp') is not None:
+            S['hist']['with_bp_chunked'] += 1
+        if ok_pre and rows[0] == 0 and len(set(json.dumps(r[0]) for r in rows[1])) >= 2 and rel and other:
+            S['nontrivial'] += 1
+        if use_model:
+            if canon_model_rows(m7[i]) != rows:
+                disagree('blacklisted_binning_contigs', t, m7[i], o['rows'])
+            if (pre[i] == 1) != ok_pre or (nd[i] == 1) != nodup_py(t):
+                S['notes'].append('harness: Python gpre/nodup and Coq gpre/nodupb disagree on %r' % (t,))
+            if i in m9 and 'chunks' in o:
+                mc = [1] if m9[i][0] == 1 else [0, m9[i][1]]
+                ic = [0, [[[fw.to_val(r[0])] + list(r[1:]) for r in ch] for ch in o['chunks']]]
+                if mc != ic:
+                    disagree('bp_chunked(blacklisted_binning_contigs)', dict(t), m9[i], o.get('chunks'))
+            if i % 7 == 0 or len(S['keep']) < 30:
+                S['keep'].append((gmodel_input(t), m7[i], None))
+                if i in m9:
+                    S['keep'].append((gmodel_input(t, 9), m9[i], None))
+        # the statement on the implementation's rows (Python transcription contig_spec, cross-checked against gspecb below)
+        if ok_pre and nodup_py(t) and rows[:1] != ['error']:
+            S['spec_evals'] += 1
+            got = ['error', 'the call raises (%s)' % o.get('why', '')] if rows == [1] else o['rows']
+            bad = P.contig_spec(t, got)
+            if bad:
+                violation('blacklisted_binning_contigs:' + bad[0], 'blacklisted_binning_contigs: ' + bad[1], t, o['rows'])
+            if 'chunks' in o and [r for ch in o['chunks'] for r in ch] != o['rows']:
+                violation('bp_chunked:concat', 'bp_chunked(blacklisted_binning_contigs(..)): chunks do not concatenate to the rows', t, o)
+    # Python contig_spec vs Coq gspecb (mode 2) on implementation rows and perturbed rows
+    if use_model:
+        samp = [(t, canon_rows(gi[i]['rows'])) for i, t in enumerate(gc)
+                if gpre_py(t) and nodup_py(t) and i % 5 == 0 and gi[i]['rows'] != ['skipped']]
+        samp = [(t, r[1]) for t, r in samp if r[0] == 0 and all(ln <= 400 for _, ln in t['contigs'])][:400]
+        both = samp + [(t, perturb_rows(rng, r)) for t, r in samp]
+        cb = fw.run_model('C17', 2, [[gmodel_input(t), r] for t, r in both]) if both else []
+        mism = 0
+        for (t, r), b in zip(both, cb):
+            py = P.contig_spec(t, [[fw.as_str(x[0])] + list(x[1:]) for x in r]) is None
+            if py != (b == 1):
+                mism += 1
+                S['notes'].append('harness: Python contig_spec and Coq gspecb disagree on %r rows %r' % (t, r))
+        S['gspec_cross'] = {'cases': len(both), 'of_which_perturbed_rows': len(samp), 'rejected_by_gspecb': sum(1 for b in cb if b == 0),
+                            'mismatches': mism}
+    # ---- whole path from a text
+    if use_model:
+        m10 = fw.run_model('C17', 0, [gmodel_input(t, 10) for t in tcases])
+        for t, m, o in zip(tcases, m10, gi[len(gc):]):
+            if non_ascii(t['text']) or o['rows'] == ['skipped']:
+                continue
+            wf = text_wellformed(t['text'])
+            S['hist']['path_text_%s' % ('wellformed' if wf else 'malformed')] += 1
+            if canon_model_rows(m) != canon_rows(o['rows']):
+                if wf or m[0] == 0:
+                    disagree('blacklisted_binning_contigs(BED text)', t, m, o['rows'])
+                else:
+                    S['hist']['malformed_text_model_raises_impl_differs'] += 1
+    # ---- the records of a text
+    if use_model:
+        m8 = fw.run_model('C17', 0, [[8, t['text']] for t in texts])
+    for i, t in enumerate(texts):
+        if non_ascii(t['text']) or ti[i] == ['skipped']:
+            continue
+        o = canon_parse_impl(ti[i])
+        wf = text_wellformed(t['text'])
+        S['hist']['text_%s' % ('wellformed' if wf else 'malformed')] += 1
+        if t.get('gz'):
+            S['hist']['text_gz'] += 1
+        if any(ord(ch) > 127 for ch in t['text']):
+            S['hist']['text_non_ascii'] += 1
+        if o == ['missing']:
+            S['hist']['text_reader_missing'] += 1
+            continue
+        if o[:1] == ['error']:
+            S['errors'] += 1
+        if 'records' in t:                       # theorem C17_bed_round_trip on the implementation
+            S['spec_evals'] += 1
+            want = canon_parse_records(t['records'])
+            if o != want:
+                violation('bed_round_trip', 'reading back the BED file %r gives %r, the records written are %r'
+                          % (t['text'], ti[i], t['records']), t, ti[i])
+        if use_model:
+            m = canon_parse_model(m8[i])
+            if m != o:
+                if wf or m[0] == 0:
+                    disagree('get_bins_from_bed_dict(BED text)', t, m8[i], ti[i])
+                else:
+                    S['hist']['malformed_text_model_raises_impl_differs'] += 1
+            if i % 40 == 0 and len(t['text']) < 200:
+                S['keep'].append(([8, t['text']], m8[i], None))
+    # ---- print_bed of the model = the format string the files are written with
+    if use_model:
+        small = [recs for recs in rt if all(abs(v) < 2 ** 60 for r in recs for v in r[1:])]
+        pm = fw.run_model('C17', 0, [[11, recs] for recs in small]) if small else []
+        for recs, m in zip(small, pm):
+            if fw.as_str(m) != ''.join('%s\t%d\t%d\n' % tuple(r) for r in recs):
+                disagree('print_bed', recs, fw.as_str(m), ''.join('%s\t%d\t%d\n' % tuple(r) for r in recs))
+        S['print_bed_checked'] = len(small)
+    S['scope'] = {'contig_level': scope_desc, 'bed_text': tscope_desc}
+    S['counts'] = {'contig_level_cases': len(gc), 'of_which_exhaustive_scope': len(scope), 'of_which_with_bp_chunked': sum(1 for t in gc if t.get('bp') is not None),
+                   'whole_path_from_text_cases': len(tcases), 'bed_texts': len(texts), 'of_which_exhaustive_scope_texts': len(tscope),
+                   'round_trip_files': len(rt), 'text_encoding': res.get('text_encoding')}
+    S['dis'] = sorted(S['dis'], key=lambda d: len(json.dumps(d['input'])))[:10]
+    S['notes'] = S['notes'][:5]
+    return S
+
+
+def canon_parse_records(recs):
+    d = {}
+    for c, s, e in recs:
+        d.setdefault(c, []).append((s, e))
+    return canon_parse(d)
+
+
 # ============================================================================ chunk worker (own process)
 def nontrivial(c, out):
     fn = c[0]
@@ -846,7 +1381,11 @@ def work(args):
             S['errors'] += 1
         if o == ['missing']:
             continue
-        if model is not None and canon_helper(fn, model[i]) != canon_helper(fn, o):
+        if model is not None and not in_domain(fn, c):
+            # outside the hypotheses of every statement about this function (a reversed region / interval, a step or bin
+            # size <= 0, an unsorted list given to trim_rangelist): the behaviour is not constrained and not compared
+            S['hist']['outside_domain_not_compared'] += 1
+        elif model is not None and canon_helper(fn, model[i]) != canon_helper(fn, o):
             S['ndis'] += 1
             S['dis'].append({'fn': FN[fn], 'input': c, 'model': model[i], 'impl': o})
             if len(S['dis']) > 40:
@@ -910,14 +1449,27 @@ class Prop(fw.PropBase):
         'strings, the reading of the holes by Model.C17, py2coq; /repo contains fixes C17-D21 (D21+D22), C17-D23, C17-D31',
         'int((start - current) / total_bins) is modelled as Z.quot: assumes the float quotient of two integers below 2^53 '
         'truncates to the exact quotient (sampled up to 2^44); sorted() on tuples = insertion sort by (start, end)',
-        'modelled not verified: reading the BED blacklist / contig lengths (get_bins_from_bed_dict, pysam header) in '
-        'blacklisted_binning_contigs (exercised through a BED file and a contig list by the correspondence, not modelled in Coq); '
-        'more_itertools.windowed; generator laziness (a ValueError after some bins were yielded is compared as the exception only)',
+        'K only (no translator): coq/Model/C17x.v (get_bins_from_bed_dict as an insertion-ordered association list, the loop of '
+        'blacklisted_binning_contigs over the contig list with the whitelist test, sorted() = insertion sort, bp_chunked on the rows) and '
+        'coq/Model/C17bed.v (text-mode line iteration with universal newlines, str.strip().split(None, 3)[:3] with str.isspace() as a '
+        'table of code points, int() on a token incl. sign, single underscores and the 4300-digit limit) are hand transcriptions tied to '
+        'the code by the correspondence check through real BED / BED.gz files, contig lists, dict items and BAM headers',
+        'modelled not verified: gzip and the text codec (the model starts from the decoded text; K writes UTF-8), pysam header '
+        'reading (get_contig_sizes: a BAM path is modelled as its (name, length) list, names unique), dict / set / tuple membership of '
+        'the whitelist (modelled as list membership by ==); int() also accepts non-ASCII decimal digits, the model does not (such texts '
+        'are generated but not compared); a whitelist that is a str (substring test) is outside the model; '
+        'more_itertools.windowed; generator laziness (an exception after some rows were yielded is compared as the exception only)',
         'tools/c17.py spec_* (Python transcription of the theorem statement used by the search), cross-checked against the Coq '
         'specb (C17_specb_iff) on implementation outputs and on perturbed outputs',
     ]
     ASSUMPTIONS = ['bin_size > 0, region start <= end, every blacklist interval has start <= end, fragment_size >= 0 or None '
-                   '(outside this precondition model and code are still compared, the theorem says nothing)']
+                   '(outside this precondition model and code are still compared, the theorem says nothing)',
+                   'contig level (C17_contigs_tiling and its consequences): bin_size > 0, every whitelisted contig has length >= 0, every '
+                   'BED record naming a whitelisted contig has start <= end (records of other contigs are unconstrained), fragment_size >= 0 '
+                   'or None; C17_genome_exactly_once / C17_gspecb_iff additionally need pairwise different contig names (a BAM header, a dict)',
+                   'BED text (C17_bed_round_trip*): contig names non-empty and free of Python whitespace, coordinates of at most 4300 digits; '
+                   'texts with a malformed line (fewer than 3 columns, a column int() refuses) raise in model and code - compared, but a '
+                   'difference there is only counted in the evidence (no theorem speaks about them)']
 
     # ---------------------------------------------------------------- T
     def regen(self):
@@ -937,13 +1489,14 @@ class Prop(fw.PropBase):
         quick = self.tier == 'quick'
         rng = self.rng
         chunks = []
-        corpus, self.corpus_contigs, self.corpus_histories = [], [], []
+        corpus, self.corpus_contigs, self.corpus_histories, self.corpus_g = [], [], [], []
         for p in sorted(glob.glob(os.path.join(CORPUS, '*.json'))):
             d = json.load(open(p))
             corpus += d.get('cases', [])
             self.corpus_contigs += d.get('contigs', [])
             self.corpus_histories += d.get('histories', [])
-        self.n_corpus = len(corpus) + len(self.corpus_contigs) + len(self.corpus_histories)
+            self.corpus_g += d.get('gcases', [])
+        self.n_corpus = len(corpus) + len(self.corpus_contigs) + len(self.corpus_histories) + len(self.corpus_g)
         rnd = bb_random(rng, 6000 if quick else 60000) + bb_random(rng, 1500 if quick else 15000, big=True) \
             + bb_random(rng, 1000 if quick else 8000, outside_pre=True)
         small = small_streams(self.tier, rng)
@@ -962,7 +1515,12 @@ class Prop(fw.PropBase):
         chunks = self.plan()
         args = [(k, d, use_model, self.seed * 1000 + i) for i, (k, d) in enumerate(chunks)]
         with ProcessPoolExecutor(max_workers=WORKERS) as ex:
+            # the contig-level / BED-text chunk first: it is the longest single task
+            # (extra passes after a translator refusal draw fresh random streams and do not repeat the exhaustive scopes)
+            self._gpass = getattr(self, '_gpass', 0) + 1
+            gfut = ex.submit(work_g, (self.tier, self.rng.randrange(2 ** 31), use_model, self.corpus_g, self._gpass > 1))
             res = list(ex.map(work, args))
+            G = gfut.result()
         T = {'n': 0, 'dis': [], 'viol': {}, 'hist': Counter(), 'fn': Counter(), 'pre': 0, 'pre_n': 0, 'nontrivial': 0,
              'spec_evals': 0, 'errors': 0, 'keep': [], 'ndis': 0, 'nviol': 0}
         for S in res:
@@ -974,6 +1532,13 @@ class Prop(fw.PropBase):
                 if key not in T['viol'] or sz < T['viol'][key][0]:
                     T['viol'][key] = (sz, w)
         T['dis'] = sorted(T['dis'], key=lambda d: case_size(d['input']))[:10]
+        # contig level / BED text / bp on rows (Model.C17x, Model.C17bed)
+        T['G'] = G
+        T['n'] += G['n']
+        T['ndis'] += G['ndis']; T['dis'] = G['dis'][:5] + T['dis']
+        T['nviol'] += G['nviol']; T['spec_evals'] += G['spec_evals']; T['errors'] += G['errors']; T['nontrivial'] += G['nontrivial']
+        for key, (sz, w) in G['viol'].items():
+            T['viol'][key] = (sz, w)
         # blacklisted_binning_contigs through a BED file
         cont = self.corpus_contigs + contig_cases(self.tier, self.rng)
         hist = self.corpus_histories + history_cases(self.tier, self.rng)
@@ -1028,7 +1593,11 @@ class Prop(fw.PropBase):
                     'lists over {0,1,2,3,5}. non-trivial = blacklisted_binning: precondition holds, >= 2 bins, and (fragment size given or a '
                     'non-empty blacklist interval intersects the region); fill_range: remainder piece; trim: interval crossing a region end; '
                     'merge: an overlap exists; bp_chunked: >= 3 chunks. distinct = distinct input (exhaustive blocks are disjoint by '
-                    'construction, random regions are longer than the exhaustive ones)',
+                    'construction, random regions are longer than the exhaustive ones). EXTENSION (see extension_contig_level): '
+                    'blacklisted_binning_contigs through real BED / BED.gz files and contig lists / dict items / BAM headers against '
+                    'Model.C17x (exhaustive small scope + random, also followed by bp_chunked), the records of BED texts against '
+                    'Model.C17bed (exhaustive short texts + structured random texts, plain and gzipped), the whole path from a text; '
+                    'non-trivial = precondition holds, rows on >= 2 contigs, a blacklist record on a selected and one on an unselected contig',
             'per_function': dict(T['fn']),
             'exhaustive_scopes': self.scope_summary(),
             'exhaustive': False,
@@ -1045,6 +1614,19 @@ class Prop(fw.PropBase):
                                        'what': 'blacklisted_binning_contigs(<BAM path>, ...) called repeatedly in one process '
                                                'while the BAM / BED at the same path is rewritten between calls'},
             'utils.bp_chunked is utils.binning.bp_chunked': T['bp_same'],
+            'extension_contig_level': {
+                'counts': T['G']['counts'], 'exhaustive_scopes': T['G']['scope'], 'input_histogram': dict(T['G']['hist']),
+                'precondition_hit_rate': round(T['G']['hist'].get('precondition_holds', 0) / max(1, T['G']['counts']['contig_level_cases']), 4),
+                'nontrivial': T['G']['nontrivial'], 'spec_evaluated_on_impl_outputs': T['G']['spec_evals'],
+                'spec_violations_on_impl_outputs': T['G']['nviol'], 'disagreements': T['G']['ndis'],
+                'python_contig_spec_vs_coq_gspecb': T['G'].get('gspec_cross'), 'print_bed_vs_format_string': T['G'].get('print_bed_checked'),
+                'what': 'fn 7: rows of blacklisted_binning_contigs compared exactly with the model; fn 9: chunks of '
+                        'bp_chunked(blacklisted_binning_contigs(..), k) compared exactly; fn 8: the parsed file compared as the blacklisted '
+                        'bases per contig (what the caller can observe); on malformed texts (a line with < 3 columns or a column that is not '
+                        'an ASCII int() literal of <= 4300 digits) a difference between model (raises) and code is only counted '
+                        '(malformed_text_model_raises_impl_differs), they are outside the hypotheses of every theorem; the statement of '
+                        'C17_contigs_tiling (contig_spec, cross-checked with the Coq gspecb) and of C17_bed_round_trip is evaluated on '
+                        'the implementation outputs'},
             'samples': [{'input': c, 'impl': o} for c, m, o in T['keep'][:: max(1, len(T['keep']) // 6)][:6]],
         })
         problems = []
@@ -1052,6 +1634,10 @@ class Prop(fw.PropBase):
             first = sorted(T['viol'].values(), key=lambda x: x[0])[0][1]
             problems.append(('specification', 'the implementation output violates the theorem statement on %d inputs; smallest: %s'
                              % (T['nviol'], first['what'])))
+        for note in T['G']['notes']:
+            problems.append(('harness', note))
+        if T['G'].get('fatal'):
+            problems.append(('correspondence', T['G']['fatal']))
         if T['bp_same'] is False:
             problems.append(('correspondence', 'singlecellmultiomics.utils.bp_chunked is no longer utils.binning.bp_chunked'))
         if use_model:
@@ -1066,9 +1652,13 @@ class Prop(fw.PropBase):
             self.cdis = cdis
             # vm_compute cross-check of the extracted binary
             keep = T['keep']
-            idx = sorted(self.rng.sample(range(len(keep)), min(100, len(keep))))
-            ok, nm, log = fw.vm_crosscheck('C17', 0, [(keep[i][0], keep[i][1]) for i in idx])
-            self.cov['vm_compute_crosscheck'] = {'cases': len(idx), 'mismatches': nm}
+            gkeep = [k for k in T['G']['keep'] if len(json.dumps(k[0])) < 3000]
+            gsel = self.rng.sample(gkeep, min(35, len(gkeep)))
+            idx = sorted(self.rng.sample(range(len(keep)), min(100 - len(gsel), len(keep))))
+            ok, nm, log = fw.vm_crosscheck('C17', 0, [(keep[i][0], keep[i][1]) for i in idx] + [(k[0], k[1]) for k in gsel],
+                                           run_name='run_C17x', require='Model.C17x')
+            self.cov['vm_compute_crosscheck'] = {'cases': len(idx) + len(gsel), 'of_which_contig_level_or_text': len(gsel),
+                                                 'mismatches': nm}
             if not ok:
                 problems.append(('extraction', 'vm_compute and extracted model disagree: ' + log[-800:]))
             # the Python spec / pre used by the search agree with the Coq specb / pre (modes 2 and 1)
